@@ -113,6 +113,11 @@ Why(e) ==
          ELSE IF RootsKnown /\ ~(Reach \subseteq SurvSet(e)) THEN "Collect: reachable block reclaimed"
          ELSE IF ~SurvTagsOk(e) THEN "Collect: contents of a surviving block changed"
          ELSE "Collect: contents of a live block changed"
+    [] e.ev = "Recode" ->
+         IF ~FreeOk(Addr(e.pg, e.off)) THEN "Recode: block is not live"
+         ELSE IF Has(e, "rpg") /\ Addr(e.rpg, e.roff) # Addr(e.pg, e.off) THEN "Recode: returned a different address"
+         ELSE IF Get(e, "ocode", e.code) # e.code THEN "Recode: object code not recorded"
+         ELSE "Recode: contents of a live block changed"
     [] e.ev = "Fault" -> "Fault: the allocator died (failed audit assertion, signal or error exit)"
     [] e.ev = "Lost"  -> "Lost: a live block is no longer allocated although no collection ran"
     [] e.ev = "Hang"  -> "Hang: the allocator did not return"
